@@ -283,6 +283,9 @@ func (se *SpecEnv) objValue(o types.Object) (T, bool) {
 			return T{S: se.c.reg.StrLit(constant.StringVal(x.Val())), So: "Str", Ty: x.Type()}, true
 		}
 	case *types.Var:
+		if se.c.eng.db.Sentinels[x.Pkg().Path()+"."+x.Name()] {
+			return T{S: se.c.sentinelConst(x.Pkg().Path() + "." + x.Name()), So: "Iface", Ty: x.Type()}, true
+		}
 		// package-level variable: value loaded from its global cell
 		addr := se.c.reg.Global(x.Pkg().Path() + "." + x.Name())
 		term := se.c.loadWith(se.memOf, addr, x.Type())
